@@ -501,6 +501,32 @@ def rule_limiter_cleanup(program, ctx, prop=P, rid="C19.limiter"):
     ctx.ok(rid, fn, f"cleanup: {n} keyed lookups in local tables checked")
 
 
+def rule_arith(program, ctx, prop=P, rid="C19.arith"):
+    ctx.rule(
+        rid,
+        "the connection handler's epilogues cannot raise: in web.send_subscriptions (awaited from start_client's finally, where only CancelledError is caught) and in "
+        "start_client itself, a division / modulo by a runtime value outside any try raises ZeroDivisionError for the connection that sent or received nothing - the "
+        "exception escapes the handler and skips the remaining clean-up (limiter history)",
+        floor=1,
+    )
+    n = 0
+    for q in ("nostr_relay.web:send_subscriptions", "nostr_relay.web:start_client"):
+        fn = program.func(q)
+        for b in walk_no_nested(fn):
+            if isinstance(b, ast.BinOp) and isinstance(b.op, (ast.Div, ast.FloorDiv, ast.Mod)) and not isinstance(b.right, ast.Constant) and not (isinstance(b.left, ast.Constant) and isinstance(b.left.value, (str, bytes))):
+                n += 1
+                tries = [a for a in ancestors(b) if isinstance(a, ast.Try) and any(b is x for s_ in a.body for x in ast.walk(s_))
+                         and any(h.type is None or any(t in ast.unparse(h.type) for t in ("Exception", "ZeroDivisionError", "ArithmeticError")) for h in a.handlers)]
+                from ..lib import guard_atoms
+                guarded = any(pol and ast.unparse(e) in (ast.unparse(b.right), f"{ast.unparse(b.right)} > 0", f"{ast.unparse(b.right)} != 0") for e, pol in guard_atoms(b, stop=fn))
+                if tries or guarded:
+                    ctx.ok(rid, b, f"{fn.name}: `{ast.unparse(b)[:40]}` is guarded")
+                else:
+                    ctx.bad(finding_at(prop, rid, b, f"{fn.name}: `{ast.unparse(b)[:50]}` divides by a runtime value outside any handler: zero (nothing sent / received yet) raises out of the "
+                                       "connection handler"))
+    ctx.ok(rid, program.func("nostr_relay.web:send_subscriptions"), f"{n} divisions by runtime values checked")
+
+
 def rule_token(program, ctx, prop=P, rid="C19.token"):
     ctx.rule(
         rid,
@@ -569,6 +595,10 @@ def run(program, ctx):
     rule_cancelled_await(program, ctx)
     rule_token(program, ctx)
     rule_limiter_cleanup(program, ctx)
+    rule_arith(program, ctx)
+    from . import c02
+
+    c02.rule_rows(program, ctx, prop=P, rid="C19.rows")
     from . import c06, c13
 
     c06.rule_reap(program, ctx, prop=P, rid="C19.reap")
